@@ -34,6 +34,8 @@ pub struct Server {
     ns_real: BTreeMap<String, String>,
     /// set when a restore failed: the server must not be used any more
     pub broken: Option<String>,
+    /// number of cases run on this server (source of `Target::nonce`)
+    pub case_counter: u32,
 }
 
 fn ok_json(resp: &Resp, what: &str) -> Result<Value, String> {
@@ -55,7 +57,7 @@ fn ns_query_value(id: &str) -> String {
 
 impl Server {
     pub fn new(proc_: Proc, http: Http, admin: String) -> Self {
-        Server { proc_, http, admin, sessions: HashMap::new(), fixture: BTreeMap::new(), puts: BTreeMap::new(), mcp_ids: BTreeMap::new(), ns_real: BTreeMap::new(), broken: None }
+        Server { proc_, http, admin, sessions: HashMap::new(), fixture: BTreeMap::new(), puts: BTreeMap::new(), mcp_ids: BTreeMap::new(), ns_real: BTreeMap::new(), broken: None, case_counter: 0 }
     }
 
     pub fn admin_send(&self, r: &Req) -> Result<Resp, String> {
